@@ -1004,6 +1004,37 @@ def httpLayer (h : HttpResp) : R Unit :=
       if !startsWith ct "application/xml" && !startsWith ct "text/xml" then .error .headerParseError
       else pure ()
 
+/-- what the HTTPError raised for a status other than 200 / 401 carries: `status`, the `CIMError` header
+    (`cimerror`) and whether `cimdetails` has a 'PGErrorDetail' entry (only looked at when the CIMError
+    header is present).  mirrors pywbem/_cim_http.py: wbem_request -/
+structure HttpErrorInfo where
+  status : Nat
+  cimerror : Option Str
+  hasPGErrorDetail : Bool
+  deriving DecidableEq
+
+def httpErrorInfo (h : HttpResp) : HttpErrorInfo :=
+  let ce := headerGet h.headers "CIMError"
+  ⟨h.status, ce, ce.isSome && (headerGet h.headers "PGErrorDetail").isSome⟩
+
+/-- the 401 branch: does the message name 'Basic' as unsupported by the server (the authentication
+    schemes are the first words of the comma-separated WWW-Authenticate items) -/
+def splitOn (sep : Char) : Str → List Str
+  | [] => [[]]
+  | c :: cs =>
+    if c = sep then [] :: splitOn sep cs
+    else match splitOn sep cs with
+      | [] => [[c]]
+      | p :: ps => (c :: p) :: ps
+
+def serverAuthSchemes (h : HttpResp) : List Str :=
+  match headerGet h.headers "WWW-Authenticate" with
+  | none => []
+  | some [] => []
+  | some v => (splitOn ',' v).map (fun sa => (splitOn ' ' sa).headD [])
+
+def basicOffered (h : HttpResp) : Bool := (serverAuthSchemes h).contains "Basic".toList
+
 /-- outcome of an operation with the data the exception carries -/
 structure Outcome where
   res : R Res
